@@ -81,6 +81,14 @@ CHECKS.update({
             "DESIGN.md section 5 C02"),
 })
 
+CHECKS.update({
+    "C11": ("fault_enumeration",
+            "symbolic crash point: the failing call index k is a z3 integer, `count == k` forks inside the stub, so every reachable call index is explored; real interpreter and real generated class; per failing path z3 validity queries for state and resumption clauses",
+            "Fault enumeration with the crash point as a solver variable: a user function raises at its k-th call (k in 0..7 symbolic) in runs of K=2 steps (thorough 3) followed by m=1 (2) further steps, on curated and seeded random programs with calls in right-hand sides, guards, scalar loops, multi-assignee calls and several phases. Checked per failing path: same exception object; only persistent names left; every persistent variable is its pre-step value or a value the written program assigns in that step; variables whose writers all depend on the failed call unchanged; the resumed stepper behaves like a fresh stepper in that state and phase.",
+            "Trusted: z3, symx, RefProgram. One function per call site; no arrays; user functions otherwise pure.",
+            "DESIGN.md section 5 C11"),
+})
+
 NOT_APPLICABLE = {
 }
 
